@@ -111,6 +111,11 @@ func (c *Cache) SetWithExpire(key string, value any, expire time.Duration) {
 	c.lruCache.add(key)
 	// 同 Del：计时器与数据在同一个临界区里更新
 	if ok {
+		// 与 SetTimer 一致：不足一个时间轮间隔的过期时间按一个间隔计，
+		// 否则 MoveTimer 会立即执行过期回调，刚写入的值随即被删除
+		if expiry > 0 && expiry < time.Second {
+			expiry = time.Second
+		}
 		c.timingWheel.MoveTimer(key, expiry)
 	} else {
 		c.timingWheel.SetTimer(key, value, expiry)
